@@ -3,8 +3,10 @@ package main
 import (
 	"fmt"
 	"go/constant"
+	"go/token"
 	"go/types"
 	"sort"
+	"strings"
 
 	"golang.org/x/tools/go/ssa"
 )
@@ -561,4 +563,123 @@ func helperEstablishesReceiver(callee *ssa.Function, call *ssa.Call, callParam *
 		return guardNames[cl.Name()]
 	}
 	return false
+}
+
+func init() {
+	register(&Rule{ID: "HOLES-result", Props: []string{"C08"}, Min: 3,
+		Doc: "G: the array built-ins that copy elements into a result array (concat 15.4.4.4 step 5.b.iii, slice 15.4.4.10 step 10.c, splice 15.4.4.12 step 9.c, map 15.4.4.19 step 8.c) copy an element only if the source has it: a hole stays a hole (`1 in [1,,3].slice(0)` is false). In every function that hands a []Value to newArrayOf, wherever a branch on hasProperty stores or appends the present element, the absent side stores or appends the emptyValue marker at that position (newArrayOf skips it); leaving the slot at the zero Value, or writing Value{}, creates an own property holding undefined",
+		Run: ruleHolesResult})
+}
+
+func ruleHolesResult(c *Ctx, r *R) {
+	isEmptyValue := func(v ssa.Value) bool {
+		if ld, ok := v.(*ssa.UnOp); ok && ld.Op == token.MUL {
+			if g, ok := ld.X.(*ssa.Global); ok && g.Name() == "emptyValue" {
+				return true
+			}
+		}
+		return false
+	}
+	isValueSlice := func(t types.Type) bool {
+		s, ok := t.Underlying().(*types.Slice)
+		return ok && typeIs(s.Elem(), ottoPath, "Value")
+	}
+	n := 0
+	for _, fn := range c.AllSrcFuncs("") {
+		feeds := false
+		for _, b := range fn.Blocks {
+			for _, ins := range b.Instrs {
+				if call, ok := ins.(*ssa.Call); ok && call.Call.StaticCallee() != nil && call.Call.StaticCallee().Name() == "newArrayOf" {
+					feeds = true
+				}
+			}
+		}
+		if !feeds {
+			continue
+		}
+		ord := 0
+		for _, b := range fn.Blocks {
+			iff, ok := b.Instrs[len(b.Instrs)-1].(*ssa.If)
+			if !ok {
+				continue
+			}
+			cond, neg := normBool(iff.Cond)
+			hc, ok := cond.(*ssa.Call)
+			if !ok || hc.Call.StaticCallee() == nil || hc.Call.StaticCallee().Name() != "hasProperty" {
+				continue
+			}
+			present, absent := b.Succs[0], b.Succs[1]
+			if neg {
+				present, absent = absent, present
+			}
+			// what the present side does with a []Value
+			type effect struct {
+				positional bool
+				found      bool
+			}
+			effectsOf := func(start *ssa.BasicBlock, other *ssa.BasicBlock) (eff effect, storesEmpty bool, storesZero ssa.Instruction) {
+				seen := map[*ssa.BasicBlock]bool{}
+				var walk func(x *ssa.BasicBlock)
+				walk = func(x *ssa.BasicBlock) {
+					if seen[x] || !start.Dominates(x) {
+						return
+					}
+					seen[x] = true
+					for _, ins := range x.Instrs {
+						switch y := ins.(type) {
+						case *ssa.Store:
+							if ia, ok := y.Addr.(*ssa.IndexAddr); ok && isValueSlice(ia.X.Type()) {
+								eff.found, eff.positional = true, true
+								if isEmptyValue(y.Val) {
+									storesEmpty = true
+								} else if isZeroStruct(y.Val) {
+									storesZero = ins
+								}
+							}
+						case *ssa.Call:
+							if bi, ok := y.Call.Value.(*ssa.Builtin); ok && bi.Name() == "append" && isValueSlice(y.Type()) {
+								eff.found = true
+								if elems, known := variadicElems(y.Call.Args[1]); known {
+									for _, e := range elems {
+										if isEmptyValue(e) {
+											storesEmpty = true
+										} else if isZeroStruct(e) {
+											storesZero = ins
+										}
+									}
+								}
+							}
+						}
+					}
+					for _, s := range x.Succs {
+						walk(s)
+					}
+				}
+				if len(start.Preds) == 1 {
+					walk(start)
+				}
+				return
+			}
+			pe, _, _ := effectsOf(present, absent)
+			if !pe.found {
+				continue
+			}
+			ae, absEmpty, absZero := effectsOf(absent, present)
+			n++
+			ord++
+			key := fmt.Sprintf("%s:hasProperty#%d", fn.Name(), ord)
+			site := c.Pos(instrPos(iff))
+			switch {
+			case absZero != nil:
+				r.bad(key, c.Pos(instrPos(absZero)), fmt.Sprintf("%s writes Value{} (undefined) into its result where the source has no such element: the hole becomes an own property (`1 in [1,,3].%s(...)` is true); the emptyValue marker keeps it a hole", fn.Name(), strings.ToLower(strings.TrimPrefix(fn.Name(), "builtinArray"))))
+			case pe.positional && !(ae.found && absEmpty):
+				r.bad(key, site, fmt.Sprintf("%s fills a slot of its result only when the source has the element and leaves it at the zero Value (undefined) otherwise: the hole becomes an own property holding undefined (`1 in [1,,3].%s(...)` is true)", fn.Name(), strings.ToLower(strings.TrimPrefix(fn.Name(), "builtinArray"))))
+			default:
+				r.ok(key, site, "the absent side keeps the hole (emptyValue) or adds nothing")
+			}
+		}
+	}
+	if n == 0 {
+		r.undecided("unresolved:sites", "-", "UNRESOLVED: no hasProperty branch feeding newArrayOf found")
+	}
 }
